@@ -137,6 +137,7 @@ type WorkloadRec struct {
 type View struct {
 	Pods       []string
 	Nodes      map[string]string                        // name -> pod
+	NodeRaw    map[string]string                        // name -> stored node record
 	NodeRes    map[string]*cpumemtypes.NodeResourceInfo // plugin records
 	Workloads  map[string]*WorkloadRec
 	Processing []string
@@ -149,7 +150,7 @@ type View struct {
 
 // View reads the backend directly. redisStore says where the metadata lives.
 func (b *Backend) View(redisStore bool) *View {
-	v := &View{Nodes: map[string]string{}, NodeRes: map[string]*cpumemtypes.NodeResourceInfo{}, Workloads: map[string]*WorkloadRec{}}
+	v := &View{Nodes: map[string]string{}, NodeRaw: map[string]string{}, NodeRes: map[string]*cpumemtypes.NodeResourceInfo{}, Workloads: map[string]*WorkloadRec{}}
 	type kvp struct{ k, val string }
 	var meta []kvp
 	for _, e := range b.Etcd.Dump("") {
@@ -188,6 +189,7 @@ func (b *Backend) View(redisStore bool) *View {
 			n := &coretypes.Node{}
 			if jsonUnmarshal([]byte(e.val), n) == nil {
 				v.Nodes[n.Name] = n.Podname
+				v.NodeRaw[n.Name] = e.val
 			}
 		case strings.HasPrefix(k, "/workloads/"):
 			w := &coretypes.Workload{}
